@@ -184,3 +184,10 @@ package codec
 // parent, passUpError); the value is only reached through the error interface
 //@ func (fieldError).Error
 //@   requires e.err != nil
+
+// ---- decoding is exact or rejected (C03): oneof framing ---------------------------------------------
+// A oneof object that decodes successfully named at most one member, and a "!type" that was given
+// agrees with it.
+//@ func (*decoder).decodeOneofInner
+//@   assert at return#1 empty: len(foundKeys) == 0 && constrainType == nil
+//@   assert at return#6 single: len(foundKeys) == 1 && (constrainType != nil ==> foundKeys[0] == *constrainType)
